@@ -1,7 +1,7 @@
 import PycModel.Proofs.StreamLemmas
 import PycModel.Proofs.LexerTotal
 import PycModel.Parser.Stmt
-import PycModel.Properties.Tables
+import PycModel.Proofs.StreamRel
 /-!
 # C06 — `parse()` either returns a FileAST or raises ParseError
 
@@ -43,5 +43,12 @@ spins; hence `parse` cannot hang in the lexer -/
 theorem scanner_terminates (cfg : LexCfg) (h : cfg.wf = true) (text : List Char) (file : String) :
     Ev.stuck ∉ scan cfg (fun _ => false) text file :=
   scan_no_stuck h _ text file
+
+
+/-- the scope stack is never empty in any state a production can reach (so `_scope_stack[-1]`
+never raises IndexError), and a stray closing brace cannot underflow it -/
+theorem scope_stack_never_empty (fuel : Nat) (nt : NT) (s : PState) (a : nt.Res) (s' : PState)
+    (h : run fuel nt s = .ok a s') (g : Good s) : s'.scopes ≠ [] :=
+  ((run_adv fuel nt s a s' h).good g).scopes
 
 end PycModel.C06
